@@ -5,14 +5,18 @@ package main
 
 import (
 	"fmt"
+	"net/http/httptest"
 	"os"
 	"strings"
 	"sync"
+
+	"github.com/labstack/echo/v4"
 
 	"github.com/Syuparn/pangaea/di"
 	"github.com/Syuparn/pangaea/evaluator"
 	"github.com/Syuparn/pangaea/object"
 	"github.com/Syuparn/pangaea/parser"
+	httpbuiltin "github.com/Syuparn/pangaea/props/modules/http/builtin"
 )
 
 func main() {
@@ -41,6 +45,51 @@ func main() {
 					return
 				}
 				evaluator.Eval(node, object.NewEnclosedEnv(root))
+			}(g, round)
+		}
+		wg.Wait()
+	}
+	// S4/S5 bodies: a main script that goes on binding names while handlers defined in its scope run; the real request
+	// handlers of the http module called from several goroutines (no server)
+	main := object.NewEnclosedEnv(root)
+	evalIn := func(env *object.Env, src string) object.PanObject {
+		node, err := parser.Parse(parser.NewReader(strings.NewReader(src), "race"))
+		if err != nil {
+			return nil
+		}
+		return evaluator.Eval(node, env)
+	}
+	evalIn(main, "invite!(\"http\")\nzz_users := [{id: \"1\", name: \"Taro\"}]\nzz_g0 := 10\nzz_handler := {|req| [zz_g0, req]}\n"+
+		"zz_h1 := S.get(\"/users/:id\") {|req| zz_users.find {|u| u.id == req.params.id} || Response.new(status: 404, body: \"not found\")}\n"+
+		"zz_h6 := S.get(\"/corr\") {|req| Response.new(body: req.headers.keys.S, headers: {**req.headers@({}){|k, v| [k, v[0]]}})}\n")
+	var hs []echo.HandlerFunc
+	for _, n := range []string{"zz_h1", "zz_h6"} {
+		if v, ok := main.Get(object.GetSymHash(n)); ok {
+			if h, ok := httpbuiltin.VerifHandlerFunc(v); ok {
+				hs = append(hs, h)
+			}
+		}
+	}
+	for round := 0; round < 200; round++ {
+		for g := 0; g < 6; g++ {
+			wg.Add(1)
+			go func(g, round int) {
+				defer wg.Done()
+				defer func() { recover() }()
+				switch {
+				case g == 0:
+					evalIn(main, fmt.Sprintf("zz_g0 := %d; zz_new_%d := zz_g0 + 1", round, round))
+				case g == 1:
+					evalIn(object.NewEnclosedEnv(main), "zz_handler(1)")
+				case len(hs) == 2:
+					e := echo.New()
+					req := httptest.NewRequest("GET", fmt.Sprintf("/users/%d?zzq_%d=1", g%2+1, round), nil)
+					req.Header.Set(fmt.Sprintf("X-Zz-Corr-%d", round), "v")
+					c := e.NewContext(req, httptest.NewRecorder())
+					c.SetParamNames("id")
+					c.SetParamValues(fmt.Sprint(g%2 + 1))
+					hs[g%2](c)
+				}
 			}(g, round)
 		}
 		wg.Wait()
